@@ -26,12 +26,17 @@ out.append("\n## 3. Per-property summary\n")
 out.append("| id | title | theorems (Props/Cxx.lean) | Gen files (tie A) | known findings | fixed in /repo | seeded changes caught |")
 out.append("|----|-------|---------------------------|-------------------|----------------|----------------|-----------------------|")
 seeds = {}
+retired = []
 sd = os.path.join(ROOT, "seeded")
 if os.path.isdir(sd):
     for d in sorted(os.listdir(sd)):
         mp = os.path.join(sd, d, "meta.json")
         if os.path.exists(mp):
-            m = json.load(open(mp)); seeds.setdefault(m["property"], []).append((d, m))
+            m = json.load(open(mp))
+            if m.get("retired"):
+                retired.append((d, m))
+                continue
+            seeds.setdefault(m["property"], []).append((d, m))
 for p in props:
     pid = p["id"]
     src = rd(f"lean/ClairModel/Props/{pid}.lean")
@@ -87,6 +92,10 @@ for p in props:
             if not m.get("caught") and any(str(v).startswith("VIOLATION") for k, v in other.items() if k != "note"):
                 verdict = "missed by this check, VIOLATION under " + ",".join(k for k, v in other.items() if k != "note" and str(v).startswith("VIOLATION"))
         out.append(f"| {d} | {cell(m.get('title'), 160)} | {cell(m.get('needs_to_manifest'), 220)} | {cell(', '.join(m.get('files_touched') or []), 80)} | {verdict} | {cell(how, 200)} |")
+if retired:
+    out.append("\nRetired seeded changes (not counted above):\n")
+    for d, m in retired:
+        out.append(f"* `{d}` — {m.get('title')}: {m['retired']}")
 out.append("\n" + rd("design/TAIL.md").rstrip() + "\n")
 out.append("\n---------------------------------------------------------------------------\n\n" + rd("design/ROUND0.md").rstrip() + "\n")
 open(os.path.join(ROOT, "DESIGN.md"), "w").write("\n".join(out))
